@@ -16,7 +16,15 @@ Clause(name, holds) == IF holds THEN TRUE ELSE Report(name, {})
 \* which clauses to evaluate: "all", "doc" (C05: the document) or "roundtrip" (C02: the forest read back)
 Want == IF "CLAUSES" \in DOMAIN IOEnv THEN IOEnv.CLAUSES ELSE "all"
 
+\* huge exact-identity forests, logged by fingerprint (see BinaryFormatTrace)
+FpCase ==
+    /\ Clause("write", Ev.write = "ok")
+    /\ Ev.write = "ok" =>
+          /\ Clause("read", Ev.read = "ok")
+          /\ Ev.read = "ok" => Clause("roundtrip", Ev.fp_after = Ev.fp_before)
+
 CheckCase ==
+    IF "fp_before" \in DOMAIN Ev THEN FpCase ELSE
     /\ Clause("write", Ev.write = WriteExpected(Ev.before, Ev.enc))
     /\ Ev.write = "ok" =>
           /\ Want \in {"all", "doc"} =>
